@@ -1,5 +1,22 @@
-//! Conformance harness for property C11, see /verif/DESIGN.md.
+//! Conformance harness for property C11 (signal dispositions and traps),
+//! see /verif/DESIGN.md section 6 "C11".
+mod trapset;
+
 fn main() {
-    eprintln!("yv-c11: not implemented yet");
-    std::process::exit(2);
+    let args: Vec<String> = std::env::args().collect();
+    if args.len() < 2 {
+        eprintln!("usage: yv-c11 <replay|random|redo> ...");
+        std::process::exit(2);
+    }
+    let rest = &args[2..];
+    let code = match args[1].as_str() {
+        "replay" => trapset::replay(rest),
+        "random" => trapset::random(rest),
+        "redo" => trapset::redo(rest),
+        other => {
+            eprintln!("unknown subcommand {other}");
+            2
+        }
+    };
+    std::process::exit(code);
 }
